@@ -68,14 +68,14 @@ TRUSTED_EXTRA = [
 
 def cases(rng, tier):
     S.reset_work()
-    cs = ([json.loads(json.dumps(c)) for c in S.CORPUS] + S.zoo_cases(rng, tier) + S.sig_cases(rng, tier) + S.const_cases(rng, tier) + S.mi_cases(rng, tier) + S.enumvals_cases(rng, tier)
+    cs = ([json.loads(json.dumps(c)) for c in S.CORPUS] + S.zoo_cases(rng, tier) + S.sig_cases(rng, tier) + S.const_cases(rng, tier) + S.mi_cases(rng, tier) + S.enumvals_cases(rng, tier) + S.diamond_cases(rng, tier)
           + S.gen_cases(rng, tier, 450 if tier == "quick" else 6000))
     S.prepare(cs)
     return cs
 
 
 def search_cases(rng, tier):
-    cs = S.zoo_cases(rng, tier) + S.sig_cases(rng, tier) + S.const_cases(rng, tier) + S.mi_cases(rng, tier) + S.enumvals_cases(rng, tier) + S.gen_cases(rng, "thorough", 150)
+    cs = S.zoo_cases(rng, tier) + S.sig_cases(rng, tier) + S.const_cases(rng, tier) + S.mi_cases(rng, tier) + S.enumvals_cases(rng, tier) + S.diamond_cases(rng, tier) + S.gen_cases(rng, "thorough", 150)
     S.prepare(cs)
     return cs
 
@@ -152,10 +152,24 @@ def judge(case, impl, model):
             fails.append(("uncompilable-stub:other", f"generated .pyi parses but does not compile: {ce['msg']} at `{ce['line']}`"))
     stub = impl["stub"]["classes"]
     mclasses = {c["name"]: c for c in model["classes"]}
+    dclasses = {c["name"]: c for c in model.get("classesD", [])}
     table = impl["table"]
+    nontree = set(impl.get("nontree", []))
     for ti, name in zip(impl["targets"], specs):
         rv = impl["runtime"][name]
         mc = mclasses.get(name)
+        dc = dclasses.get(name)
+        if ti in nontree:
+            mc = dc         # shared ancestor: the Define-based model (C3) is the model of this class
+        elif dc is not None:
+            # tree-shaped: the two models of the same code must agree with each other
+            for k in ("init", "shallowClone", "fromOtherClass", "fromTrustedData", "consts", "fieldOrder",
+                      "admitsExtra", "inheritedAddlOn", "inheritedAddlOff"):
+                if mc[k] != dc[k]:
+                    msgs.append(f"{name}: tree model and Define-based model differ in {k}: {mc[k]} / {dc[k]}")
+            if sorted(mc["runtime"]["params"]) != sorted(dc["runtime"]["params"]) or mc["runtime"]["kw"] != dc["runtime"]["kw"] \
+                    or sorted(set(mc["required"])) != sorted(set(dc["required"])):
+                msgs.append(f"{name}: tree model and Define-based model differ in the runtime signature / _required")
         sc = stub.get(name)
         ff = final_fields(table, ti)
         # ---- correspondence: model of the runtime side vs the real class
@@ -217,7 +231,13 @@ def judge(case, impl, model):
             if in_consts:
                 fails.append(("constant-in-stub:init", f"{name}: Constant field(s) {in_consts} are keyword parameters of the stub __init__"))
             elif set(sn) != rt_names:
-                fails.append(("names-mismatch:init", f"{name}: stub __init__ keywords {sorted(sn)} != runtime-accepted {sorted(rt_names)}"))
+                if dc is not None and not dc["namesCovered"] and ti in nontree:
+                    fails.append(("names-mismatch:constant-shadowed-in-diamond",
+                                  f"{name}: stub __init__ keywords {sorted(sn)} != inspect.signature names {sorted(rt_names)}: a base "
+                                  "took the name for a Constant (its signature drops it) while this class resolves it to "
+                                  "another branch's Field"))
+                else:
+                    fails.append(("names-mismatch:init", f"{name}: stub __init__ keywords {sorted(sn)} != runtime-accepted {sorted(rt_names)}"))
             for n, d in init["pos"]:
                 if n not in rt_names:
                     continue
@@ -274,7 +294,10 @@ def judge(case, impl, model):
             if not ok_shape:
                 fails.append((f"helper-shape:{mname}", f"{name}: {h}"))
             hn = [n for n, _ in fields]
-            if set(hn) != rt_names or len(hn) != len(set(hn)):
+            if set(hn) != rt_names and dc is not None and not dc["namesCovered"] and ti in nontree:
+                fails.append(("names-mismatch:constant-shadowed-in-diamond",
+                              f"{name}.{mname}: field keywords {sorted(hn)} != inspect.signature names {sorted(rt_names)}"))
+            elif set(hn) != rt_names or len(hn) != len(set(hn)):
                 fails.append((f"helper-names-mismatch:{mname}",
                               f"{name}: field keywords {sorted(hn)} != runtime-accepted {sorted(rt_names)}"))
             if not all(d for _, d in fields):
